@@ -44,7 +44,7 @@ func init() {
 			}
 			return changed >= 3 && noop >= 1
 		},
-		Rule:     "op sequences on two DList[int] (all Push/Insert/Move/Remove forms, node-inserting forms with detached nodes, PushBackDList/PushFrontDList incl. onto itself; handles 60% live / 25% removed / 15% of the other list) or on one SList[int] (index ops with indices -1..len+1 and, one in eight, huge ones: ±2^31±j, ±2^32±j, ±2^33+j, MaxInt-j, MinInt+j; Len/Front/Back/Next observers incl. Next of removed nodes); plus a stream of long lists (100-20000 nodes, thorough up to 65537; bulk pushn/removen, index and handle operations at positions 0, 1, n/2, n-2, n-1, n, n+1, self-copies doubling the list, digests of the full forward/backward/All() traversals) and a stream of phased histories (the same node removed and re-inserted many times through the *Node entry points, move chains, drain - Init - reuse, fill - drain - refill of an SList; every node returned by Remove/RemoveFront re-linked at once through a *Node entry point into the same or a second SList sharing the nodes (line flip); loops allbody/walkbody = range over All() / Front-Next with a body that mutates the list at chosen iterations through handles or indices obtained before the loop); non-trivial = at least three operations changed a list and at least one mutator was a no-op (stale/foreign handle, out-of-range index, move onto itself); distinct by hash of the op list",
+		Rule:     "op sequences on two DList[int] (all Push/Insert/Move/Remove forms, node-inserting forms with detached nodes, PushBackDList/PushFrontDList incl. onto itself; handles 60% live / 25% removed / 15% of the other list) or on one SList[int] (index ops with indices -1..len+1 and, one in eight, huge ones: ±2^31±j, ±2^32±j, ±2^33+j, MaxInt-j, MinInt+j; Len/Front/Back/Next observers incl. Next of removed nodes); plus a stream of long lists (100-20000 nodes, thorough up to 65537; bulk pushn/removen, index and handle operations at positions 0, 1, n/2, n-2, n-1, n, n+1, self-copies doubling the list, digests of the full forward/backward/All() traversals) and a stream of phased histories (the same node removed and re-inserted many times through the *Node entry points, move chains, drain - Init - reuse, fill - drain - refill of an SList; every node returned by Remove/RemoveFront re-linked at once through a *Node entry point into the same or a second SList sharing the nodes (line flip); loops allbody/walkbody = range over All() / Front-Next with a body that mutates the list at chosen iterations through handles or indices obtained before the loop); non-trivial = at least three operations changed a list and at least one mutator was a no-op (stale/foreign handle, out-of-range index, move onto itself); a third of the non-large cases run on another element type (header ty=string|float|slice|any|unit|fstruct: NaN and -0, uncomparable slices and structs, any holding mixed dynamic types incl. nil, the zero-size type); setv h v = e.Value = v through the handle between operations; distinct by hash of the op list",
 		Classify: classify,
 		Parallel: true,
 		Assumptions: []string{
@@ -80,6 +80,10 @@ func kind(c core.Case) string {
 }
 
 func gen(r *core.Rand, tier string) core.Case {
+	return retype(r, gen0(r, tier))
+}
+
+func gen0(r *core.Rand, tier string) core.Case {
 	switch r.Pick(3, 16, 181) {
 	case 0: // long lists: 1.5 % of the cases (a few hundred in quick)
 		if r.Chance(55) {
@@ -123,7 +127,7 @@ func check(c core.Case, out []string) *core.Failure {
 }
 
 func classify(c core.Case, out []string) []string {
-	ls := []string{kind(c)}
+	ls := []string{kind(c), "ty:" + tyOf(c)}
 	for i := 1; i < len(c.Lines) && i < len(out); i++ {
 		t := core.Toks(c.Lines[i])
 		if len(t) == 0 {
@@ -190,6 +194,15 @@ func corpus() []core.Case {
 		// other list inside the loop (the loop goes on there)
 		{Lines: []string{"@ C13 slist z", "pb 1", "pb 2", "pb 3", "flip", "pb 8", "pb 9", "flip", "allbody 0:o.rmf 1:o.pb:7", "walkbody 0:rm:0 0:o.pfn:0", "flip", "walkbody", "flip", "allbody 1:rm:1 1:o.pbn:2 2:break", "flip", "len", "back", "allbody 0:o.pb:5 1:o.rm:0"}, Tag: "history"},
 		{Lines: []string{"@ C13 dlist z n", "pb A 1", "pb A 2", "pb A 3", "pb B 8", "pb B 9", "allbody A 0:mtf:B:6 1:rm:B:5", "walkbody A 0:pb:B:4 1:ib:B:7:6 2:rm:A:3", "allbody B 0:rm:A:2 1:pb:A:0", "len A", "len B"}, Tag: "history"},
+		// element types: uncomparable / non-reflexive values swapped, copied, removed, set through the handle
+		{Lines: []string{"@ C13 slist z ty=slice", "pb 1", "pb 1", "pb 2", "swap 0 1", "swap 0 2", "swap 2 2", "setv 0 5", "swap 0 1", "rm 1", "pbn 1", "allbody 0:swap:0:1"}},
+		{Lines: []string{"@ C13 slist n ty=any", "pb 2", "pb 8", "pb 4", "pb 4", "pb 9", "pb 9", "pb 5", "pb 5", "pb 1", "swap 0 1", "swap 2 3", "swap 4 5", "swap 6 7", "swap 0 8", "setv 0 2", "swap 0 1", "walkbody"}},
+		{Lines: []string{"@ C13 slist z ty=float", "pb 7", "pb 7", "pb 8", "pb 0", "swap 0 1", "swap 2 3", "swap 1 2", "get 1", "rmf", "rm 2"}},
+		{Lines: []string{"@ C13 slist z ty=unit", "pb 0", "pb 0", "pf 0", "swap 0 2", "rm 1", "ins 1 0", "len", "allbody"}},
+		{Lines: []string{"@ C13 dlist z n ty=any", "pb A 2", "pb A 8", "pb A 4", "pb A 9", "pb A 5", "pbl A A", "pfl B A", "rm A 3", "rm A 4", "setv 2 4", "mtb A 2", "pbl B A", "allbody A 0:setv:5:2", "rm B 12"}},
+		{Lines: []string{"@ C13 dlist n n ty=fstruct", "pb A 7", "pb A 7", "pb B 8", "pfl B A", "rm A 2", "rm B 5", "ia A 7 3", "allbody B"}},
+		// values changed behind the list's back between operations: nothing but All()/Remove's result depends on them
+		{Lines: []string{"@ C13 dlist z z", "pb A 1", "pb A 2", "pb A 3", "setv 3 9", "mtf A 3", "setv 3 1", "rm A 3", "setv 3 7", "pbn B 3", "setv 2 2", "mb A 4 2", "pbl B A", "new 4", "setv 7 6", "pfn A 7"}},
 		// SList: head/tail bookkeeping at sizes 0,1,2
 		{Lines: []string{"@ C13 slist", "rmf", "rm 0", "get 0", "pb 1", "rm 0", "pf 2", "rmf", "ins 5 3", "ins -1 4", "ins 1 5", "rm 2", "rm 1", "rm 0", "swap 0 0"}},
 		{Lines: []string{"@ C13 slist", "pb 1", "pb 2", "pb 3", "swap 0 2", "swap 2 1", "swap 1 3", "swap -1 0", "rm 2", "pb 4", "rm 0", "pf 5", "get 2", "get 3", "get -1", "new 9", "insn 1 5", "rm 1", "pbn 5", "rm 3", "pfn 5"}},
